@@ -43,6 +43,25 @@ STRATA = {
     "translate": (1500, 90000),
     "orf": (1500, 100000),
 }
+# functions that must leave their arguments untouched (vf.core.PurityMonitor; '!' = the object itself is watched too)
+PURE = [
+    "biotite.sequence.alphabet:Alphabet.encode_multiple",
+    "biotite.sequence.alphabet:Alphabet.decode_multiple",
+    "biotite.sequence.alphabet:LetterAlphabet.encode_multiple",
+    "biotite.sequence.alphabet:LetterAlphabet.decode_multiple",
+    "biotite.sequence.alphabet:AlphabetMapper.__getitem__",
+    "biotite.sequence.sequence:Sequence.__getitem__!",
+    "biotite.sequence.sequence:Sequence.__add__!",
+    "biotite.sequence.sequence:Sequence.reverse!",
+    "biotite.sequence.sequence:Sequence.__eq__!",
+    "biotite.sequence.sequence:Sequence.__str__!",
+    "biotite.sequence.seqtypes:NucleotideSequence.complement!",
+    "biotite.sequence.seqtypes:NucleotideSequence.translate!",
+    "biotite.sequence.codon:CodonTable.map_codon_codes",
+    "biotite.sequence.align.kmeralphabet:KmerAlphabet.create_kmers",
+    "biotite.sequence.align.kmeralphabet:KmerAlphabet.fuse",
+    "biotite.sequence.align.kmeralphabet:KmerAlphabet.split",
+]
 REQUIRED_ORACLES = [
     "letter_grid", "roundtrip_letter", "roundtrip_generic", "symbol_out_of_alphabet_rejected",
     "code_out_of_range_rejected", "mapper_preserves_symbol", "kmer_code_vs_radix", "kmer_fuse_split",
